@@ -1,9 +1,32 @@
 import PyamgV.Driver.Util
-/-! Driver ops of extension task E23 (op names prefixed `ext_`). -/
+import PyamgV.Driver.C05
+import PyamgV.Proofs.ExtC05BridgeCheck
+/-! Driver ops of extension task E23 (op names prefixed `ext_`).
+
+`ext_c05_symh r|c <pre> <post> <levels as for c05_cyc>`: the Boolean `C05.c05Check` of
+`Proofs/ExtC05BridgeCheck.lean` on the concrete hierarchy (`r`: rationals, `conj = id`; `c`: Gaussian
+rationals, `conj = CRat.conj`), followed by its five components (shapes, C-points and diagonals, in-range
+column indices, Hermitian dense copies, installed smoothers). `Proofs/ExtC05Bridge.lean`: flag `True` and
+this Boolean `true` ⇒ `denseM` is symmetric (`flag_denseM_symmetric_checked`). -/
 namespace PyamgV.Drv.ExtE23
 open PyamgV PyamgV.Drv
 
+def showParts (l : List Bool) : String := String.intercalate "," (l.map (fun b => if b then "1" else "0"))
+
+def runCheck {α : Type} [Add α] [Sub α] [Mul α] [Div α] [OfNat α 0] [OfNat α 1] [DecidableEq α]
+    (conj : α → α) (p : String → Array α) (pre post : String) (rest : List String) : String :=
+  let pre := PyamgV.Drv.C05.parseCfgs pre
+  let post := PyamgV.Drv.C05.parseCfgs post
+  match PyamgV.Drv.C05.parseLevels p pre post 0 rest with
+  | none => "unmodelled"
+  | some (ls, ac) =>
+    s!"{PyamgV.C05.c05Check conj pre post ac ls} {showParts (PyamgV.C05.c05CheckParts conj pre post ac ls)}"
+
 def handle : List String → Option String
+  | "ext_c05_symh" :: "r" :: pre :: post :: rest =>
+    some <| runCheck (α := Rat) id parseRats pre post rest
+  | "ext_c05_symh" :: "c" :: pre :: post :: rest =>
+    some <| runCheck (α := CRat) CRat.conj parseCRats pre post rest
   | _ => none
 
 end PyamgV.Drv.ExtE23
